@@ -43,6 +43,11 @@ CHECKS = {
    text="Encode->decode->re-encode for all witness versions 0..16 x program lengths 0..42 x 6 patterns x bc/tb (both cases), all 256 Base58 version bytes x 6 hashes; valid-checksum structurally invalid segwit strings (versions 0..31 x both checksum variants x every data length x fills x hrps); from 17 valid addresses and 6 WIFs ALL single substitutions over 100 byte values, insertions, deletions, case flips, whole-case changes, transpositions, every checksum-byte value; all double substitutions inside the Bech32 charset on 3 (thorough 12) addresses and all triples on the short address; all strings of length <=4 (thorough <=6) over a 12-character alphabet. Verdict, decoded script and re-encoded string must equal the reference.",
    note="trusted: refaddr (validated against all BIP173/BIP350/Base58/addr/WIF vectors on disk at start). NewAddrFromString has no network parameter: a string is valid iff valid for main, test or Litecoin Base58 versions. Not judged (counted): other Base58 version bytes, WIF keys outside [1,n-1], P2PK scripts, encoder preconditions",
    design="3/C15"),
+ "C13": dict(dir="c13", level="exploration", engine="seqx-shape",
+   technique="bounded-exhaustive enumeration over the wallet BINARY (black box): full product of the most interacting dimensions, a pairwise-complete array over all 27 dimensions and directed edge cases; accounting model + two independent script verifiers as oracle",
+   text="The wallet binary is built from the tree and driven in scratch directories over: wallet configuration (type 3/4 x atype p2kh/segwit/bech32/tap x testnet), synthesised balance folders (1-4 own outputs of P2PKH / P2SH-P2WPKH / P2WPKH / P2TR, amounts {1,546,10^5,10^8}, three funding layouts, optional foreign first line) and requests (1-3 destinations of 9 kinds, 11 amount classes from 1 sat to balance+1, -fee, -f, -change, -msg, -seq, -locktime, -txver, -useallinputs, -rfc6979, -batch, -txfn). Every produced transaction is re-offered with -raw in six forms; the balance folder left behind is spent completely in a second run. Judged: inputs are listed outputs, each destination gets exactly its amount at the refaddr-decoded script, change = inputs - payments - fee to an own address, every input verifies under script.VerifyTxScript (standard flags) AND the reference interpreter, RFC6979 signatures equal the reference signer's, nothing is written and exit != 0 when funds are insufficient or amounts wrap, -raw leaves outputs/outpoints/sequences/version/locktime untouched.",
+   note="quick ~5*10^3 binary runs, thorough ~8*10^4; random-nonce signatures judged on validity only; P2SH-P2WPKH ownership depends on atype and is modelled; taproot keys untweaked by wallet convention; trusted: refaddr, refsig, refhash, refscript (all validated against the repo's vectors at start)",
+   design="3/C13"),
  "C01": dict(dir="c01", level="exploration", engine="seqx-shape",
    technique="bounded-exhaustive differential enumeration of script programs / inputs / flag sets on script.VerifyTxScript against an independent second interpreter (refscript over refhash, refsig)",
    text="Every member of the families is evaluated by the implementation and by the reference; verdicts must agree; a panic escaping or a run > 60 s is a violation. (a) ALL programs of <= 2 (thorough <= 3, and <= 4 over 21 tokens) tokens over a 77-token alphabet (pushes incl. non-minimal and truncated forms, every opcode class, symbolic signatures and keys) in 5 contexts (bare, P2SH, P2WSH, P2SH-P2WSH, tapscript) with small initial stacks and 2-3 flag sets; (b) all 256 opcodes x 3 sigversions x executed/unexecuted x depth 0-4; (c) CHECKMULTISIG m-of-n 0..20(+21) with bad-signature positions, dummy, NULLFAIL; (d) CLTV/CSV operand and tx boundary values; (e) limits 999/1000/1001, 200/201/202, 520/521, 10000/10001; (f) witness versions 0-16 x program lengths 2-40, wrapped/bare, P2WPKH item counts, scriptSig malleation; (g) taproot control sizes, leaf versions, parity, Merkle order, annex, OP_SUCCESS x256, key-path signature sizes and all 256 hash types, sigop budget; (h) a 21-set flag lattice over the repo's vector corpus; plus DER/pubkey encodings and FindAndDelete families. Small-scope claim, not a proof over all scripts.",
